@@ -112,6 +112,12 @@ func genTails(c *core.Ctx, thorough bool) []tailCase {
 	out = append(out, tailCase{cat: "valid_record", tail: encodeRecord([]byte("align-key"), nil, true)})
 	out = append(out, tailCase{cat: "valid_record", tail: append(encodeRecord([]byte("align-key"), nil, true), make([]byte, 7)...)})
 	out = append(out, tailCase{cat: "valid_record", tail: encodeRecord([]byte{}, []byte{}, false)})
+	// well-formed records with the longest legal keys
+	for _, kl := range []int{65535, 65530 + rng.Intn(5)} {
+		k := make([]byte, kl)
+		rng.Read(k)
+		out = append(out, tailCase{cat: "valid_record", tail: encodeRecord(k, core.MakeVal(802, 5), false)})
+	}
 	return out
 }
 
